@@ -1,6 +1,6 @@
 (* C06 - single-shot fits are the weighted least-squares optimum of their family *)
 From Coq Require Import QArith List Arith Bool.
-From TW Require Import GJModel LSQ Rscale Rscale2 Shift Recovery LinearFit Legacy Unique UniqueSim.
+From TW Require Import GJModel LSQ Rscale Rscale2 Shift Recovery LinearFit Legacy Unique UniqueSim GeneralTotal.
 Import ListNotations.
 Open Scope Q_scope.
 
@@ -59,6 +59,13 @@ Theorem C06_rscale_exact_recovery : forall l, 0 < sw l -> (forall z, In z l -> 0
     py z == f10 (model l) * pu z + f11 (model l) * pv z + s2 (model l).
 Proof. exact rscale_exact_recovery. Qed.
 Print Assumptions C06_rscale_exact_recovery.
+
+(* totality: data containing three positively weighted non-collinear sources are always fitted *)
+Theorem C06_general_total : forall l a b c, (forall z, In z l -> 0 <= pw z) ->
+  In a l -> In b l -> In c l -> 0 < pw a -> 0 < pw b -> 0 < pw c -> noncollinear3 a b c ->
+  exists p q, fit_general l = FitOk p q.
+Proof. exact fit_general_total. Qed.
+Print Assumptions C06_general_total.
 
 (* uniqueness: for data containing three positively weighted non-collinear sources, any coefficient triple that
    does as well as the general fit IS the general fit (so "agrees with an independent exact solution") *)
